@@ -155,6 +155,16 @@ def run_job(job, tier, seed):
     from harness import real
     res = core.Result(job)
     rng = gen.rng_for(seed, 'C06', job)
+    if job in ('laws', 'laws_jit'):
+        # layouts with a custom blade order use their complements / vee / degenerate dual FIRST: whatever they leave behind
+        # (caches keyed by dimension or signature) must not reach the default-order layouts checked below
+        import numpy as np
+        from clifford import MultiVector
+        for n in (2, 3, 4, 5):
+            with common.guard(res, 'custom-order warm-up', dict(n=n)):
+                Lc = real.make_layout([0] + [1] * (n - 1), order=list(range(2 ** n)))
+                Mc = MultiVector(Lc, np.arange(1, 2 ** n + 1, dtype=np.int64))
+                _ = (Mc.right_complement(), Mc.left_complement(), Mc & Mc, Mc.dual())
     if job == 'laws':
         cases = common.layout_cases(tier, seed, 'C06', ex_quick=4, ex_thorough=6, rnd_quick={5: 6, 6: 2}, rnd_thorough={7: 6, 8: 2},
                                     custom_orders=False)
